@@ -11,7 +11,7 @@ From Coq Require Import String Lia Permutation.
 From XSG.Model Require Import Strings Chars Convert Necessity Element Render.
 From XSG.Proofs Require Import StringsProofs ElementProofs RenderProofs OrderProofs ReflectProofs
      StructNameProofs.
-From XSG.Corr Require Import Common Oracles.
+From XSG.Corr Require Import Common Oracles CoreCorr.
 Local Open Scope list_scope.
 
 (* ====================================================================== *)
@@ -140,3 +140,422 @@ Theorem only_order_b_render o1 o2 e :
   /\ derive o1 = derive o2 ->
   only_order_b (map erase (render_abs o1 e)) (map erase (render_abs o2 e)) = true.
 Proof. intros H. apply only_order_b_SUO. now apply render_only_order. Qed.
+
+(* ====================================================================== *)
+(* 4. C14: names_b                                                         *)
+(* ====================================================================== *)
+(* --- the two copies of the vocabulary are the same --- *)
+Lemma count_formatted_same x e : Oracles.count_formatted x e = StructNameProofs.count_formatted x e.
+Proof. reflexivity. Qed.
+
+Lemma lastn_same {A} m (l : list A) : Oracles.lastn m l = StructNameProofs.lastn m l.
+Proof. reflexivity. Qed.
+
+(* --- the boolean shape tests --- *)
+Lemma is_prefix_app a b : is_prefix a (a ++ b) = Some b.
+Proof.
+  induction a as [|x a IH]; [now destruct b|].
+  cbn [app is_prefix]. now rewrite N.eqb_refl.
+Qed.
+
+Lemma shape_with_intro m pth sfx :
+  forallb a_digit sfx = true ->
+  shape_with m pth (List.concat (map to_pascal_case (StructNameProofs.lastn m pth)) ++ sfx) = true.
+Proof.
+  intros H. unfold shape_with. rewrite lastn_same, is_prefix_app. exact H.
+Qed.
+
+Lemma shape_ok_intro m pth sfx :
+  (1 <= m <= List.length pth)%nat -> forallb a_digit sfx = true ->
+  shape_ok pth (List.concat (map to_pascal_case (StructNameProofs.lastn m pth)) ++ sfx) = true.
+Proof.
+  intros Hm H. unfold shape_ok. apply existsb_exists. exists m.
+  split; [apply in_seq; lia|now apply shape_with_intro].
+Qed.
+
+(* --- the oracle's pairing walk, with the recursive call abstracted --- *)
+Definition triple := (list str * element * pstruct)%type.
+
+Section PWalk.
+  Context (pg : element -> list pstruct -> option (list triple * list pstruct)).
+  Fixpoint pwalk (cs : list (nec * element)) (acc : list triple) (ps : list pstruct) {struct cs}
+    : option (list triple * list pstruct) :=
+    match cs with
+    | [] => Some (acc, ps)
+    | c :: cs' =>
+        if contains_only_text (snd c) then pwalk cs' acc ps
+        else match pg (snd c) ps with
+             | Some (l, ps') => pwalk cs' (acc ++ l) ps'
+             | None => None end
+    end.
+End PWalk.
+
+Lemma pair_go_unfold e pth p rest :
+  pair_go e pth (p :: rest)
+  = pwalk (fun x ps => pair_go x (pth ++ [ename e]) ps) (echildren e)
+          [(pth ++ [ename e], e, p)] rest.
+Proof. destruct e as [n t x k a ch q]. reflexivity. Qed.
+
+(* what is recorded about a (path, node, struct) triple produced below the node `e` rendered
+   under the path prefix `pth`: its path is pth ++ q for a struct path q of e, the node carries
+   the last name of q, and the struct is named by the table entry read at that path *)
+Definition paired (tbl : name_table) (e : element) (pth : path) (t : triple) : Prop :=
+  exists q, spath e q /\ fst (fst t) = pth ++ q /\ ename (snd (fst t)) = last q []
+            /\ ps_name (snd t) = name_at tbl (pth ++ q).
+
+Definition head_triple (o : options) (tbl : name_table) (e : element) (pth : path) : triple :=
+  (pth ++ [ename e], sort_tree_by (order_of o) e, erase (head_struct o tbl e pth)).
+
+Lemma paired_head o tbl e pth : paired tbl e pth (head_triple o tbl e pth).
+Proof.
+  exists [ename e]. split; [apply sp_here|]. unfold head_triple. cbn [fst snd last].
+  split; [reflexivity|]. split; [apply ename_sort_tree_by|reflexivity].
+Qed.
+
+Lemma paired_child tbl e pth c t :
+  In c (echildren e) -> contains_only_text (snd c) = false ->
+  paired tbl (snd c) (pth ++ [ename e]) t -> paired tbl e pth t.
+Proof.
+  intros Hc Hot (q & Hq & Hp & Hn & Hnm).
+  exists (ename e :: q). split; [now apply (sp_child e c q)|].
+  rewrite <- app_assoc in Hp, Hnm. cbn [app] in Hp, Hnm.
+  split; [exact Hp|]. split; [|exact Hnm].
+  rewrite last_cons_nonnil; [exact Hn|]. exact (proj1 (spath_last_count _ _ Hq)).
+Qed.
+
+(* the pairing of a node: the oracle consumes exactly the structs rendered for it, the first
+   triple is the node's own, and every triple is `paired` *)
+Definition pair_at (o : options) (tbl : name_table) (e : element) : Prop :=
+  forall pth rest, exists L,
+    pair_go (sort_tree_by (order_of o) e) pth (map erase (render_abs_at o tbl e pth) ++ rest)
+    = Some (head_triple o tbl e pth :: L, rest)
+    /\ Forall (paired tbl e pth) L.
+
+Lemma pwalk_children o tbl path1 (l : list (nec * element)) :
+  Forall (fun c => pair_at o tbl (snd c)) l ->
+  forall acc rest, exists L,
+    pwalk (fun x ps => pair_go x path1 ps) (map (st_child (order_of o)) l) acc
+          (map erase (flat_map (child_structs o tbl path1) l) ++ rest) = Some (acc ++ L, rest)
+    /\ Forall (fun t => exists c, In c l /\ contains_only_text (snd c) = false
+                                  /\ paired tbl (snd c) path1 t) L.
+Proof.
+  induction 1 as [|c l Hc Hl IH]; intros acc rest.
+  - exists []. split; [cbn [map flat_map pwalk app]; now rewrite app_nil_r|constructor].
+  - cbn [map flat_map pwalk].
+    change (snd (st_child (order_of o) c)) with (sort_tree_by (order_of o) (snd c)).
+    rewrite contains_only_text_sort_tree_by.
+    destruct (contains_only_text (snd c)) eqn:E.
+    + replace (child_structs o tbl path1 c) with (@nil structdef)
+        by (unfold child_structs; now rewrite E).
+      cbn [app]. destruct (IH acc rest) as [L [HL HF]]. exists L. split; [exact HL|].
+      revert HF. apply Forall_impl. intros t (c' & Hin & H1 & H2).
+      exists c'. split; [now right|]. split; assumption.
+    + replace (child_structs o tbl path1 c) with (render_abs_at o tbl (snd c) path1)
+        by (unfold child_structs; now rewrite E).
+      rewrite map_app, <- app_assoc.
+      destruct (Hc path1 (map erase (flat_map (child_structs o tbl path1) l) ++ rest))
+        as [Lc [Hgo HFc]].
+      rewrite Hgo.
+      destruct (IH (acc ++ head_triple o tbl (snd c) path1 :: Lc) rest) as [L [HL HF]].
+      exists ((head_triple o tbl (snd c) path1 :: Lc) ++ L). split.
+      * rewrite HL, <- app_assoc. reflexivity.
+      * apply Forall_app. split.
+        -- assert (HFc' : Forall (paired tbl (snd c) path1) (head_triple o tbl (snd c) path1 :: Lc))
+             by (constructor; [apply paired_head|exact HFc]).
+           revert HFc'. apply Forall_impl. intros t Ht.
+           exists c. split; [now left|]. split; assumption.
+        -- revert HF. apply Forall_impl. intros t (c' & Hin & H1 & H2).
+           exists c'. split; [now right|]. split; assumption.
+Qed.
+
+Lemma pair_go_render o tbl e : pair_at o tbl e.
+Proof.
+  induction e as [n t x k a ch p IH] using element_ind'. intros pth rest.
+  remember (Elem n t x k a ch p) as e eqn:He.
+  assert (IH' : Forall (fun c => pair_at o tbl (snd c)) (sorted_children o e)).
+  { unfold sorted_children. apply isort_Forall. subst e. exact IH. }
+  clear IH He.
+  rewrite render_struct_shape. cbn [map app].
+  rewrite pair_go_unfold, ename_sort_tree_by, echildren_sorted.
+  change (fun c : nec * element =>
+            if contains_only_text (snd c) then []
+            else render_abs_at o tbl (snd c) (pth ++ [ename e]))
+    with (child_structs o tbl (pth ++ [ename e])).
+  destruct (pwalk_children o tbl (pth ++ [ename e]) _ IH' [head_triple o tbl e pth] rest)
+    as [L [HL HF]].
+  exists L. split; [exact HL|].
+  revert HF. apply Forall_impl. intros t0 (c & Hin & Hot & Hp).
+  apply (paired_child tbl e pth c); [|exact Hot|exact Hp].
+  unfold sorted_children in Hin. now apply isort_in in Hin.
+Qed.
+
+(* for every name table, path prefix and continuation *)
+Theorem render_at_pairs : forall o tbl e pth rest, exists L,
+  pair_go (sort_tree_by (order_of o) e) pth (map erase (render_abs_at o tbl e pth) ++ rest)
+  = Some (head_triple o tbl e pth :: L, rest)
+  /\ Forall (paired tbl e pth) L.
+Proof. intros o tbl e pth rest. apply pair_go_render. Qed.
+
+(* --- the table: an entry at every struct path --- *)
+Lemma spath_table_get e q :
+  spath e q -> exists v, table_get (compute_struct_names e (compute_name_hints e)) q = Some v.
+Proof.
+  intros Hq.
+  destruct (spath_entry (compute_name_hints e) _ _ (spath_sort_tree _ _ Hq) []
+                        (reserved_struct_names, [])) as [u Hu].
+  apply (table_get_some _ _ u). exact Hu.
+Qed.
+
+(* the test that names_b applies to every triple *)
+Definition triple_ok (e : element) (t : triple) : bool :=
+  let '(pth, nd, p) := t in
+  shape_ok pth (ps_name p)
+  && ((negb (Oracles.count_formatted (formatted_name nd) e =? 1)%nat) || shape_with 1 pth (ps_name p)).
+
+Lemma paired_ok e t :
+  paired (compute_struct_names e (compute_name_hints e)) e [] t -> triple_ok e t = true.
+Proof.
+  destruct t as [[pth nd] p]. intros (q & Hq & Hp & Hn & Hnm).
+  cbn [fst snd app] in Hp, Hn, Hnm. subst pth.
+  destruct (spath_table_get e q Hq) as [v Hv].
+  unfold name_at in Hnm. rewrite Hv in Hnm.
+  pose proof (table_get_in _ _ _ Hv) as Hin.
+  unfold triple_ok. rewrite Hnm. apply andb_true_iff. split.
+  - destruct (struct_name_shape e q v Hin) as (m & sfx & Hm & -> & Hs).
+    apply shape_ok_intro; [exact Hm|now apply struct_name_suffix_digits].
+  - destruct (Nat.eqb_spec (Oracles.count_formatted (formatted_name nd) e) 1) as [H1|_];
+      [|reflexivity].
+    cbn [negb orb]. unfold formatted_name in H1. rewrite Hn, count_formatted_same in H1.
+    destruct (struct_name_unqualified e q v Hin H1) as (sfx & -> & Hs).
+    pose proof (shape_with_intro 1 q sfx (struct_name_suffix_digits sfx Hs)) as Hw.
+    rewrite (lastn_one q []) in Hw by exact (proj1 (spath_last_count _ _ Hq)).
+    cbn [map List.concat] in Hw. rewrite app_nil_r in Hw. exact Hw.
+Qed.
+
+Lemma names_b_unfold o e ps :
+  names_b o e ps
+  = match pair_structs o e ps with
+    | None => false
+    | Some l =>
+        forallb (triple_ok e) l
+        && match l, ps with
+           | (_, _, p) :: _, q :: _ => str_eqb (ps_name p) (ps_name q) && shape_with 1 [ename e] (ps_name q)
+           | _, _ => false end
+    end.
+Proof. reflexivity. Qed.
+
+Theorem names_b_render o e : names_b o e (map erase (render_abs o e)) = true.
+Proof.
+  rewrite names_b_unfold. unfold pair_structs.
+  set (tbl := compute_struct_names e (compute_name_hints e)).
+  change (render_abs o e) with (render_abs_at o tbl e []).
+  destruct (pair_go_render o tbl e [] []) as [L [Hgo HF]].
+  rewrite app_nil_r in Hgo. rewrite Hgo.
+  apply andb_true_iff. split.
+  - apply forallb_forall. intros t Ht. apply paired_ok. fold tbl.
+    destruct Ht as [<-|Ht]; [apply paired_head|].
+    rewrite Forall_forall in HF. now apply HF.
+  - rewrite render_struct_shape. cbn [map]. unfold head_triple.
+    rewrite str_eqb_refl. cbn [andb].
+    destruct (struct_name_root_first o e) as (u & sfx & d & rest & Hget & _ & _ & Hu & Hs).
+    unfold erase. cbn [ps_name head_struct sd_name app]. unfold struct_name_at. fold tbl in Hget.
+    rewrite Hget, Hu.
+    pose proof (shape_with_intro 1 [ename e] sfx (struct_name_suffix_digits sfx Hs)) as Hw.
+    rewrite lastn_single in Hw by lia. cbn [map List.concat] in Hw. rewrite app_nil_r in Hw.
+    exact Hw.
+Qed.
+
+(* the pairing itself: one triple per struct, in output order, the root's first *)
+Theorem pair_structs_render o e :
+  exists L, pair_structs o e (map erase (render_abs o e))
+            = Some (head_triple o (compute_struct_names e (compute_name_hints e)) e [] :: L)
+            /\ S (List.length L) = List.length (render_abs o e).
+Proof.
+  unfold pair_structs.
+  set (tbl := compute_struct_names e (compute_name_hints e)).
+  change (render_abs o e) with (render_abs_at o tbl e []).
+  destruct (pair_go_render o tbl e [] []) as [L [Hgo HF]].
+  rewrite app_nil_r in Hgo. exists L. rewrite Hgo. split; [reflexivity|].
+  (* every struct is consumed once: count them on both sides *)
+  clear HF.
+  assert (G : forall x pth ps T r, pair_go x pth ps = Some (T, r) ->
+                                   List.length ps = (List.length T + List.length r)%nat).
+  { clear. induction x as [n t y k a ch p IH] using element_ind'. intros pth ps T r.
+    destruct ps as [|p0 rest]; [discriminate|]. rewrite pair_go_unfold. cbn [echildren].
+    set (path1 := pth ++ [ename (Elem n t y k a ch p)]). clearbody path1.
+    enough (W : forall acc ps T r,
+               pwalk (fun x ps => pair_go x path1 ps) ch acc ps = Some (T, r) ->
+               (List.length acc + List.length ps = List.length T + List.length r)%nat).
+    { intros H. specialize (W _ _ _ _ H). cbn [List.length] in *. unfold triple in *. lia. }
+    induction IH as [|c l Hc _ IHl]; intros acc ps T0 r0; cbn [pwalk].
+    - intros [= <- <-]. reflexivity.
+    - destruct (contains_only_text (snd c)); [apply IHl|].
+      destruct (pair_go (snd c) path1 ps) as [[l0 ps']|] eqn:E; [|discriminate].
+      intros H. specialize (IHl _ _ _ _ H). specialize (Hc _ _ _ _ E).
+      rewrite app_length in IHl. unfold triple in *. lia. }
+  specialize (G _ _ _ _ _ Hgo). rewrite map_length in G. cbn [List.length] in G.
+  unfold triple in *. lia.
+Qed.
+
+(* ====================================================================== *)
+(* 5. the tests made by the check are the assumptions above                     *)
+(* ====================================================================== *)
+(* `or_orthogonal` (Corr/CoreCorr.v) compares every two renderings of a case unless
+   `sort_eqb` says their sort options differ; `or_only_order` compares the renderings two by
+   two, the harness rendering every option value under (Unsorted, XmlName).  The same loops over
+   the model's renderings of a tree `e` under option values `os` (stated on the option values:
+   a `doccase` carries 63-bit hashes, i.e. primitive integers) *)
+Lemma sort_eqb_eq a b : sort_eqb a b = true -> a = b.
+Proof. destruct a, b; simpl; congruence. Qed.
+
+Theorem orthogonal_all_pairs e os :
+  forallb (fun o1 =>
+     forallb (fun o2 =>
+        negb (sort_eqb (sort o1) (sort o2))
+        || erased_eqb (Oracles.erase_bindings (map erase (render_abs o1 e)))
+                      (Oracles.erase_bindings (map erase (render_abs o2 e)))) os) os = true.
+Proof.
+  apply forallb_forall. intros o1 _. apply forallb_forall. intros o2 _.
+  destruct (sort_eqb (sort o1) (sort o2)) eqn:E; [|reflexivity].
+  cbn [negb orb]. apply erased_eqb_render. now apply sort_eqb_eq.
+Qed.
+
+Definition set_sort (o : options) (x : sortby) : options :=
+  {| text_identifier := text_identifier o; attribute_prefix := attribute_prefix o;
+     derive := derive o; sort := x |}.
+Definition both_sorts (os : list options) : list options :=
+  flat_map (fun o => [set_sort o Unsorted; set_sort o XmlName]) os.
+
+Theorem only_order_all_pairs e os :
+  pairs_ok (fun o1 o2 => only_order_b (map erase (render_abs o1 e)) (map erase (render_abs o2 e)))
+           (both_sorts os) = true.
+Proof.
+  unfold both_sorts. induction os as [|o os IH]; [reflexivity|].
+  cbn [flat_map app pairs_ok]. rewrite IH, andb_true_r.
+  apply only_order_b_render. repeat split.
+Qed.
+
+(* ====================================================================== *)
+(* 6. examples                                                             *)
+(* ====================================================================== *)
+Local Open Scope string_scope.
+Definition ot_node (n : string) (at_ : list string) (ch : list (nec * element)) (p : nat) : element :=
+  Elem (s n) false true 1 (map (fun a => (Mand, s a)) at_) ch (Some p).
+Definition ot_leaf (n : string) (p : nat) : element := Elem (s n) true true 1 [] [] (Some p).
+(* `name` under two parents and `item` at two depths (qualified names), `foo-bar` / `FooBar`
+   siblings (same PascalCase name: numeric suffix), `string` (reserved: suffix), `owner` once
+   (unqualified), text, attributes, a text-only child; positions against name order *)
+Definition ot_tree : element :=
+  Elem (s "shop") true true 1 [(Mand, s "zone"); (Opt, s "area")]
+    [ (Mand, ot_node "owner" [] [(Mand, ot_node "name" ["lang"] [] 0)] 3);
+      (Mand, ot_node "item" ["id"]
+               [ (Opt, ot_node "name" ["lang"] [] 1);
+                 (Mand, ot_node "item" ["k"] [(Mand, ot_leaf "note" 0)] 0) ] 0);
+      (Opt, ot_node "foo-bar" ["a"] [] 2);
+      (Mand, ot_node "FooBar" ["b"] [] 1);
+      (Mand, ot_node "string" ["c"] [] 5);
+      (Opt, ot_leaf "note" 4) ] None.
+Definition ot_sorted : options :=
+  {| text_identifier := s "$text"; attribute_prefix := s "@";
+     derive := s "Serialize, Deserialize"; sort := XmlName |}.
+
+Example ex_ot_names :
+  tree_names_ok ot_tree = true /\
+  map sd_name (render_abs quick_xml_de ot_tree)
+  = map s ["Shop"; "ShopItem"; "ItemItem"; "ItemName"; "ShopFooBar"; "ShopFooBar1"; "Owner";
+           "OwnerName"; "String1"] /\
+  map sd_name (render_abs ot_sorted ot_tree)
+  = map s ["Shop"; "ShopFooBar"; "ShopFooBar1"; "ShopItem"; "ItemItem"; "ItemName"; "Owner";
+           "OwnerName"; "String1"].
+Proof. split; [|split]; vm_compute; reflexivity. Qed.
+
+(* the pairing, sorted by name: paths and struct names in output order *)
+Example ex_ot_pairing :
+  option_map (map (fun t : triple => (fst (fst t), ps_name (snd t))))
+             (pair_structs ot_sorted ot_tree (map erase (render_abs ot_sorted ot_tree)))
+  = Some [ ([s "shop"], s "Shop"); ([s "shop"; s "FooBar"], s "ShopFooBar");
+           ([s "shop"; s "foo-bar"], s "ShopFooBar1"); ([s "shop"; s "item"], s "ShopItem");
+           ([s "shop"; s "item"; s "item"], s "ItemItem");
+           ([s "shop"; s "item"; s "name"], s "ItemName");
+           ([s "shop"; s "owner"], s "Owner"); ([s "shop"; s "owner"; s "name"], s "OwnerName");
+           ([s "shop"; s "string"], s "String1") ].
+Proof. vm_compute. reflexivity. Qed.
+
+Example ex_ot_oracles :
+  names_b quick_xml_de ot_tree (map erase (render_abs quick_xml_de ot_tree)) = true /\
+  names_b ot_sorted ot_tree (map erase (render_abs ot_sorted ot_tree)) = true /\
+  only_order_b (map erase (render_abs quick_xml_de ot_tree)) (map erase (render_abs ot_sorted ot_tree)) = true /\
+  derive_b ot_sorted (map erase (render_abs ot_sorted ot_tree)) = true /\
+  erased_eqb (Oracles.erase_bindings (map erase (render_abs quick_xml_de ot_tree)))
+             (Oracles.erase_bindings (map erase (render_abs serde_xml_rs ot_tree))) = true.
+Proof. repeat split; vm_compute; reflexivity. Qed.
+
+(* --- every assumption that is kept is needed --- *)
+(* C10_oracle_orthogonal: `sort o1 = sort o2` *)
+Example ex_orthogonal_needs_sort :
+  sort quick_xml_de <> sort ot_sorted /\
+  erased_eqb (Oracles.erase_bindings (map erase (render_abs quick_xml_de ot_tree)))
+             (Oracles.erase_bindings (map erase (render_abs ot_sorted ot_tree))) = false.
+Proof. split; [discriminate|vm_compute; reflexivity]. Qed.
+
+(* C09_oracle_only_order: each of the three equalities (the other two holding) *)
+Definition opt_text (x : string) : options :=
+  {| text_identifier := s x; attribute_prefix := s "@";
+     derive := s "Serialize, Deserialize"; sort := XmlName |}.
+Definition opt_derive (x : string) : options :=
+  {| text_identifier := s "$text"; attribute_prefix := s "@"; derive := s x; sort := XmlName |}.
+Definition opt_prefix (x : string) : options :=
+  {| text_identifier := s "$text"; attribute_prefix := s x;
+     derive := s "Serialize, Deserialize"; sort := XmlName |}.
+
+Example ex_only_order_needs_text :
+  only_order_b (map erase (render_abs quick_xml_de ot_tree)) (map erase (render_abs (opt_text "#text") ot_tree)) = false.
+Proof. vm_compute. reflexivity. Qed.
+Example ex_only_order_needs_prefix :
+  only_order_b (map erase (render_abs quick_xml_de ot_tree)) (map erase (render_abs (opt_prefix "") ot_tree)) = false.
+Proof. vm_compute. reflexivity. Qed.
+Example ex_only_order_needs_derive :
+  only_order_b (map erase (render_abs quick_xml_de ot_tree)) (map erase (render_abs (opt_derive "Debug") ot_tree)) = false.
+Proof. vm_compute. reflexivity. Qed.
+
+(* C14_oracle_names assumes nothing: neither `Uniq e` nor `tree_names_ok e` is needed.  A tree
+   with a repeated attribute, two children `x` under one parent and a name that is no Rust
+   identifier: the output is not well-formed Rust (two structs `RX1`), the names still pass *)
+Definition ot_dup : element :=
+  Elem (s "r") false true 1 [(Mand, s "a"); (Mand, s "a")]
+    [ (Mand, ot_node "x" ["p"] [] 0);
+      (Mand, ot_node "x" ["q"] [(Mand, ot_node "x" ["z"] [] 0); (Mand, ot_node "1 2" ["z"] [] 1)] 1) ] None.
+
+Example ex_names_without_hypotheses :
+  ~ Uniq ot_dup /\ tree_names_ok ot_dup = false /\
+  map sd_name (render_abs quick_xml_de ot_dup) = map s ["R"; "RX1"; "RX1"; "RXX"; "12"] /\
+  wf_b (map erase (render_abs quick_xml_de ot_dup)) = false /\
+  names_b quick_xml_de ot_dup (map erase (render_abs quick_xml_de ot_dup)) = true.
+Proof.
+  split; [|repeat split; vm_compute; reflexivity].
+  intros H. apply Uniq_inv in H. destruct H as [H _]. cbn in H.
+  inversion H as [|? ? Hn _]; subst. apply Hn. now left.
+Qed.
+
+(* --- the oracles are not vacuous --- *)
+Definition rename_struct (old new : string) (ps : list pstruct) : list pstruct :=
+  map (fun p => if str_eqb (ps_name p) (s old) then PS (ps_derive p) (s new) (ps_fields p) else p) ps.
+
+Example ex_oracles_reject :
+  (* names_b: `owner` occurs once, qualifying it is refused; dropping the qualification of
+     `ItemName` is accepted (the oracle asks for a shape, not for the minimal one); a name not
+     built from the last components of the path, a suffix that is not a number, the structs in
+     another order, a changed root name are refused.
+     only_order_b: a renamed struct, a missing struct; derive_b: another derive string *)
+  names_b quick_xml_de ot_tree (rename_struct "Owner" "ShopOwner" (map erase (render_abs quick_xml_de ot_tree))) = false /\
+  names_b quick_xml_de ot_tree (rename_struct "ItemName" "Name" (map erase (render_abs quick_xml_de ot_tree))) = true /\
+  names_b quick_xml_de ot_tree (rename_struct "ItemName" "ShopName" (map erase (render_abs quick_xml_de ot_tree))) = false /\
+  names_b quick_xml_de ot_tree (rename_struct "String1" "String_1" (map erase (render_abs quick_xml_de ot_tree))) = false /\
+  names_b quick_xml_de ot_tree (map erase (render_abs ot_sorted ot_tree)) = false /\
+  names_b quick_xml_de ot_tree (rename_struct "Shop" "Root" (map erase (render_abs quick_xml_de ot_tree))) = false /\
+  only_order_b (map erase (render_abs quick_xml_de ot_tree))
+               (rename_struct "Owner" "ShopOwner" (map erase (render_abs ot_sorted ot_tree))) = false /\
+  only_order_b (map erase (render_abs quick_xml_de ot_tree))
+               (removelast (map erase (render_abs ot_sorted ot_tree))) = false /\
+  derive_b (opt_derive "Debug") (map erase (render_abs ot_sorted ot_tree)) = false.
+Proof. repeat split; vm_compute; reflexivity. Qed.
